@@ -203,6 +203,36 @@ func c13Mutations(c *vCatalogue, m *vPos, sch vMappingSchema) []c13Mut {
 			out = append(out, c13Mut{kind: v, key: k.Value, src: src, expLine: m.EndLine + 1, expCol: k.Col, lineMap: lm})
 		}
 	}
+	// two mandatory keys removed together: each of them is reported as missing
+	{
+		var mands []*vPos
+		for ki, k := range m.Keys {
+			for _, mk := range sch.Mandatory {
+				if strings.EqualFold(mk, k.Value) && !(ki == 0 && seqItem) {
+					mands = append(mands, k)
+				}
+			}
+		}
+		if len(mands) >= 2 && len(m.Keys) > 2 {
+			for a := 0; a < len(mands); a++ {
+				for b := a + 1; b < len(mands); b++ {
+					ka, kb := mands[a], mands[b]
+					na, nb := ka.EndLine-ka.Line+1, kb.EndLine-kb.Line+1
+					lm := func(l int) int {
+						d := 0
+						if l > ka.EndLine {
+							d += na
+						}
+						if l > kb.EndLine {
+							d += nb
+						}
+						return l - d
+					}
+					out = append(out, c13Mut{kind: "remove-pair", key: ka.Value + "+" + kb.Value, src: c.DeleteKeys([]*vPos{ka, kb}), lineMap: lm})
+				}
+			}
+		}
+	}
 	for ki, k := range m.Keys {
 		mand := false
 		for _, mk := range sch.Mandatory {
@@ -425,6 +455,18 @@ func c13Verdict(r *vReport, errs []*Error, rp map[string]any, npath string) {
 		if !foundExtra {
 			r.Violation("extra-key-hidden-by-missing-key:"+npath+"."+parts[1], fmt.Sprintf("%s: mandatory key %q removed and key %q added at line %d: the added key is not reported; diagnostics: %s", where, parts[0], parts[1], expLine, vTrunc(fmt.Sprint(ds), 400)), rp)
 		}
+	case kind == "remove-pair":
+		for _, one := range strings.Split(key, "+") {
+			found := false
+			for _, d := range ds {
+				if strings.Contains(strings.ToLower(d.Msg), strings.ToLower(one)) {
+					found = true
+				}
+			}
+			if !found {
+				r.Violation("missing-key-not-reported:"+npath+"."+one+":removed-with-another", fmt.Sprintf("%s: mandatory keys %q removed together but no diagnostic mentions %q; diagnostics: %s", where, key, one, vTrunc(fmt.Sprint(ds), 400)), rp)
+			}
+		}
 	case kind == "remove":
 		found := false
 		for _, d := range ds {
@@ -455,7 +497,7 @@ func c03QuoteCopy(s string) string { return "'" + strings.ReplaceAll(s, "'", "''
 func TestVerifC13(t *testing.T) {
 	r := vNewReport("C13")
 	defer r.Write(t)
-	r.Extra["rule"] = "every mapping node of the 4 maximal seeds x {foreign key first/middle/last in 3 forms (scalar, nested, null value; closed mappings), near-miss keys built from the keys present in the mapping (-ignore partner, plural / singular, _ for -, doubled), every key duplicated verbatim / re-cased (case-insensitive sections), every mandatory key removed} x {alone, plus a malformed placeholder in each sibling scalar (direct values and the first scalar below each sibling section)}; oracle from the schema of appendix C; class = (schema path of the mapping, mutation); all classes non-trivial"
+	r.Extra["rule"] = "every mapping node of the 4 maximal seeds x {foreign key first/middle/last in 3 forms (scalar, nested, null value; closed mappings), near-miss keys built from the keys present in the mapping (-ignore partner, plural / singular, _ for -, doubled), every key duplicated verbatim / re-cased (case-insensitive sections), every mandatory key removed, every pair of mandatory keys removed together} x {alone, plus a malformed placeholder in each sibling scalar (direct values and the first scalar below each sibling section)}; oracle from the schema of appendix C; class = (schema path of the mapping, mutation); all classes non-trivial"
 	r.Extra["assumptions"] = []string{"block-style mappings of the seeds only; open mappings get no foreign-key expectation; on: event names are left to the events rule"}
 	if raw := vReplayInput(); raw != nil {
 		var rp map[string]any
@@ -521,7 +563,7 @@ func TestVerifC13(t *testing.T) {
 						r.Sample(map[string]any{"seed": c.Seed, "mapping": m.Path, "schema_path": m.NPath, "mutation": mu.kind, "key": mu.key, "expected_at": []int{mu.expLine, mu.expCol}})
 					}
 				}
-				if mu.kind == "remove" || mu.kind == "remove+extra" || mu.kind == "foreign-recased" {
+				if mu.kind == "remove" || mu.kind == "remove-pair" || mu.kind == "remove+extra" || mu.kind == "foreign-recased" {
 					continue // (re-casing a key takes its whole subtree out of the parse)
 				}
 				for _, s := range sibs {
